@@ -385,6 +385,7 @@ package consensus
 //@   assigns except(consensus.State, cstypes, types, sm)
 //@ func State.enterPropose
 //@   assigns except(types.Vote), walFresh, walSyncedForSign, lastBasicOK, lastCommitVerified
+//@   atcall State.scheduleTimeout cur: arg2 == cs.RoundState.Height && arg3 == cs.RoundState.Round
 //@   requires cur: cs.RoundState.Height != height || round <= cs.RoundState.Round
 //@   ensures stepped: old(cs.RoundState.Height == height && cs.RoundState.Round <= round && !(cs.RoundState.Round == round && 3 <= cs.RoundState.Step)) ==> (cs.RoundState.Round == round && (cs.RoundState.Step == 3 || cs.RoundState.Step == 4))
 //@   ensures idle: old(cs.RoundState.Height != height || round < cs.RoundState.Round || (cs.RoundState.Round == round && 3 <= cs.RoundState.Step)) ==> (cs.RoundState.Step == old(cs.RoundState.Step) && cs.RoundState.Round == old(cs.RoundState.Round))
@@ -411,6 +412,8 @@ package consensus
 //@   atcall PrivValidator.SignProposal exact: arg1.Height == height && arg1.Round == round && arg1.PolRound == cs.RoundState.ValidRound && arg1.BlockID.Hash == types.Block.Hash(block) && (cs.RoundState.ValidBlock != nil ==> block == cs.RoundState.ValidBlock)
 //@   loop 1 invariant true: true
 
+// Every timeout a step function schedules is for the state's height and round at that moment (so, rounds never going
+// back, a timeout is never delivered for a round beyond the state's - the assumption behind `requires cur` in handleTimeout).
 // The remaining step functions: none of them touches the lock; the height changes only inside enterCommit (ASSUMED
 // here - finalizeCommit is the subject of C01); rounds never go back.
 //@ extern cstypes.HeightVoteSet.SetRound
@@ -437,6 +440,7 @@ package consensus
 //@   assigns nothing
 //@ func State.enterNewRound
 //@   assigns except(types.Vote), walFresh, walSyncedForSign, lastBasicOK, lastCommitVerified
+//@   atcall State.scheduleTimeout cur: arg2 == cs.RoundState.Height && arg3 == cs.RoundState.Round
 //@   ensures sameH: cs.RoundState.Height == old(cs.RoundState.Height)
 //@   ensures reached: old(cs.RoundState.Height) == height ==> cs.RoundState.Round >= round
 //@   ensures mono: cs.RoundState.Round >= old(cs.RoundState.Round)
@@ -444,10 +448,14 @@ package consensus
 //@   ensures votes: cs.RoundState.Votes == old(cs.RoundState.Votes)
 //@ func State.enterPrevoteWait
 //@   assigns except(types.Vote), walFresh, walSyncedForSign, lastBasicOK, lastCommitVerified
+//@   requires cur: cs.RoundState.Height != height || round <= cs.RoundState.Round
+//@   atcall State.scheduleTimeout cur: arg2 == cs.RoundState.Height && arg3 == cs.RoundState.Round
 //@   ensures same: cs.RoundState.Height == old(cs.RoundState.Height) && cs.RoundState.Round >= old(cs.RoundState.Round) && cs.RoundState.Votes == old(cs.RoundState.Votes)
 //@   ensures lockkept: cs.RoundState.LockedRound == old(cs.RoundState.LockedRound) && cs.RoundState.LockedBlock == old(cs.RoundState.LockedBlock)
 //@ func State.enterPrecommitWait
 //@   assigns except(types.Vote), walFresh, walSyncedForSign, lastBasicOK, lastCommitVerified
+//@   requires cur: cs.RoundState.Height != height || round <= cs.RoundState.Round
+//@   atcall State.scheduleTimeout cur: arg2 == cs.RoundState.Height && arg3 == cs.RoundState.Round
 //@   ensures same: cs.RoundState.Height == old(cs.RoundState.Height) && cs.RoundState.Round == old(cs.RoundState.Round) && cs.RoundState.Votes == old(cs.RoundState.Votes)
 //@   ensures lockkept: cs.RoundState.LockedRound == old(cs.RoundState.LockedRound) && cs.RoundState.LockedBlock == old(cs.RoundState.LockedBlock)
 //@ func State.enterCommit
